@@ -16,6 +16,18 @@ Theorem C15_positions_exact :
     emu_may_follow sysctl fsuid dir_mode dir_uid link_uid trailing = k_may_follow sysctl fsuid dir_mode dir_uid link_uid trailing.
 Proof. exact positions_exact. Qed.
 
+(* which links are in a trailing position, as a function of the components still to
+   walk: nothing left, or nothing but empty components (trailing slashes) -- in the
+   library (walk_open consults ps_trailing) exactly as in the kernel *)
+Theorem C15_trailing_notion_exact :
+  forall rest, OpathM.ps_trailing rest = k_trailing rest.
+Proof. exact trailing_notion_exact. Qed.
+
+Example C15_trailing_examples :
+  k_trailing [] = true /\ k_trailing [[]] = true /\ k_trailing [[]; []] = true /\
+  k_trailing [[DOT]] = false /\ k_trailing [b "f"] = false /\ k_trailing [[]; b "f"] = false.
+Proof. repeat split. Qed.
+
 Theorem C15_off_nothing_refused :
   forall fsuid dir_mode dir_uid link_uid trailing,
     k_may_follow 0 fsuid dir_mode dir_uid link_uid trailing = true /\ emu_may_follow 0 fsuid dir_mode dir_uid link_uid trailing = true.
@@ -53,3 +65,4 @@ Print Assumptions C15_positions_exact.
 Print Assumptions C15_off_nothing_refused.
 Print Assumptions C15_refusal_characterised.
 Print Assumptions C15_prog_rule.
+Print Assumptions C15_trailing_notion_exact.
